@@ -382,6 +382,41 @@ Proof.
     + exists 0. split; [lia|reflexivity].
 Qed.
 
+(* the converse: every run of the label-free program is matched by a run of the labelled one *)
+Lemma skip_labels : frag = true -> forall n s, length q - pc s <= n -> st s = Running ->
+  exists k, let s1 := run A O q k s in
+    T s1 = T s /\ st s1 = Running /\
+    (forall id, nth_error q (pc s1) <> Some (LLabel id)).
+Proof.
+  intros F. induction n as [|n IH]; intros s Hn Hs.
+  - exists 0. cbn. repeat split; [exact Hs|]. intros id H.
+    assert (pc s < length q) by (apply nth_error_Some; congruence). lia.
+  - destruct (nth_error q (pc s)) as [[id|op args]|] eqn:E.
+    + assert (step A O q s = next s) as Hst by (unfold step; rewrite Hs, E; reflexivity).
+      assert (pc s < length q) by (apply nth_error_Some; congruence).
+      destruct (IH (next s)) as (k & Hk); [cbn; lia|exact Hs|].
+      exists (S k). cbn [run]. rewrite Hs, Hst. cbn zeta in Hk |- *.
+      destruct Hk as (H1 & H2 & H3). repeat split; [|exact H2|exact H3].
+      rewrite H1. exact (T_label s id E).
+    + exists 0. cbn. repeat split; [exact Hs|]. intros id H. congruence.
+    + exists 0. cbn. repeat split; [exact Hs|]. intros id H. congruence.
+Qed.
+
+Theorem run_sim_converse : frag = true -> forall fuel' s, exists fuel,
+  T (run A O q fuel s) = run A O p' fuel' (T s).
+Proof.
+  intros F. induction fuel' as [|k IH]; intros s.
+  - exists 0. reflexivity.
+  - cbn [run]. change (st (T s)) with (st s). destruct (st s) eqn:Es.
+    + destruct (skip_labels F (length q - pc s) s (Nat.le_refl _) Es) as (j & H1 & H2 & H3). cbn zeta in *.
+      set (s1 := run A O q j s) in *.
+      destruct (step_sim s1 F) as [(_ & _ & id & Hid)|Hs]; [exfalso; exact (H3 id Hid)|].
+      destruct (IH (step A O q s1)) as (f & Hf).
+      exists (j + S f). rewrite run_add. fold s1. cbn [run]. rewrite H2. rewrite Hf, Hs, H1. reflexivity.
+    + exists 0. reflexivity.
+    + exists 0. reflexivity.
+Qed.
+
 Lemma T_init : T (init_state A) = init_state A.
 Proof.
   unfold T, init_state. cbn [regs mem pc hist names st].
@@ -403,6 +438,15 @@ Theorem resolve_preserves_behaviour_with_calls : frag = true -> forall fuel, exi
 Proof.
   intros F fuel. destruct (run_sim F fuel (init_state A)) as (f' & Hle & H).
   exists f'. split; [exact Hle|]. cbn zeta. rewrite T_init in H. rewrite <- H. repeat split; reflexivity.
+Qed.
+
+Theorem resolve_behaviour_with_calls_converse : frag = true -> forall fuel', exists fuel,
+  let a := run A O q fuel (init_state A) in
+  let b := run A O p' fuel' (init_state A) in
+  hist b = hist a /\ st b = st a /\ mem b = mem a /\ regs b = map_regs (regs a) /\ pc b = ib (pc a).
+Proof.
+  intros F fuel'. destruct (run_sim_converse F fuel' (init_state A)) as (f & H).
+  exists f. cbn zeta. rewrite T_init in H. rewrite <- H. repeat split; reflexivity.
 Qed.
 
 End S.
